@@ -151,6 +151,12 @@ func c17(r *core.Run) {
 		c06NoEarlyFailure(r, "G6", ro)
 	}
 	c06PrefixBoundary(r, "G7")
+	r.Rule("G9", "exact tokenisation: library code never splits with strings/bytes Fields or FieldsFunc (they drop empty tokens, so names with empty tokens are routed like other names and a separators-only name has no first token) and never strips a variable prefix with a cutset function (Trim, TrimLeft, TrimRight)", 1)
+	c17ExactTokens(r, "G9", []string{"", "store", "store/badgerstore", "store/mockstore", "resprot", "middleware", "middleware/resbadger"}, "library")
+	r.Rule("G8", "the pattern handed out at registration is the pattern routed (shared with C06.R11): the registration-time traversal that reconstructs a handler's pattern rebinds the mount index at mount points, as the matcher does; otherwise a handler below a nested mount is told a pattern with its placeholder on another token, and id -> resource id -> id through the transformers is no longer the identity", 2)
+	if ro := resolveMuxRolesFor(r, "G8"); ro != nil {
+		c06MountAware(r, "G8", ro)
+	}
 
 	// ---- G5 --------------------------------------------------------------
 	if mf := methodNamed(p, "", "Pattern", "Matches"); mf != nil && len(mf.Params) == 2 {
@@ -280,6 +286,10 @@ func c17(r *core.Run) {
 							needle = sv
 						} else if k, ok := core.ConstInt(a); ok && k > 0 && k < 128 {
 							needle = string(rune(k))
+						} else {
+							// a needle assembled from a wildcard character and a name ("$" + tag), also
+							// when it was built outside the closure that uses it
+							needle = constPartsOf(a, 0)
 						}
 						if strings.ContainsAny(needle, "$*>") {
 							r.Bad("G4", core.FuncName(fn), "position-blind-search:"+cal.Name()+"("+fmt.Sprintf("%q", needle)+")", p.InstrPos(c), "a wildcard character is located with "+pk+"."+cal.Name()+", which also finds it in the middle of a token: this operation then gives '$', '*' or '>' wildcard meaning where the validator, matcher and mux treat it as a literal")
@@ -545,4 +555,95 @@ func literalBranchConsumesToken(fn *ssa.Function, recv ssa.Value) bool {
 		}
 	}
 	return false
+}
+
+// constPartsOf: the constant string parts of a concatenation, following a
+// captured or local variable to the value stored in it.
+func constPartsOf(v ssa.Value, depth int) string {
+	if depth > 5 || v == nil {
+		return ""
+	}
+	switch x := v.(type) {
+	case *ssa.Const:
+		if sv, ok := core.ConstString(x); ok {
+			return sv
+		}
+	case *ssa.BinOp:
+		if x.Op == token.ADD {
+			return constPartsOf(x.X, depth+1) + constPartsOf(x.Y, depth+1)
+		}
+	case *ssa.Convert:
+		return constPartsOf(x.X, depth+1)
+	case *ssa.ChangeType:
+		return constPartsOf(x.X, depth+1)
+	case *ssa.Phi:
+		out := ""
+		for _, e := range x.Edges {
+			if e != v {
+				out += constPartsOf(e, depth+1)
+			}
+		}
+		return out
+	case *ssa.UnOp:
+		if x.Op != token.MUL {
+			return ""
+		}
+		cell := x.X
+		if fv, ok := cell.(*ssa.FreeVar); ok {
+			cell = core.BindingOf(fv)
+		}
+		al, ok := cell.(*ssa.Alloc)
+		if !ok || al.Referrers() == nil {
+			return ""
+		}
+		out := ""
+		for _, rf := range *al.Referrers() {
+			if st, ok := rf.(*ssa.Store); ok && st.Addr == ssa.Value(al) {
+				out += constPartsOf(st.Val, depth+1)
+			}
+		}
+		return out
+	}
+	return ""
+}
+
+// c17ExactTokens: resource names, patterns and keys are cut where the grammar
+// says - at every separator, empty tokens included, and by exact prefixes. Two
+// families of standard functions do something else and look deceptively like
+// the exact ones: Fields / FieldsFunc drop empty fields (so "a..b" and "a.b"
+// tokenise alike and a name of separators only yields no token at all), and
+// Trim / TrimLeft / TrimRight take a *set of characters*, not a prefix (so
+// with a variable "prefix" they keep eating characters of what follows).
+// Expected count today: zero; the rule is kept alive by its seeded mutants.
+func c17ExactTokens(r *core.Run, rule string, rels []string, what string) {
+	p := r.P
+	nScan := 0
+	for _, rel := range rels {
+		for _, fn := range p.FuncsOfPkg(rel) {
+			for _, c := range core.Calls(fn) {
+				cal := c.Common().StaticCallee()
+				if cal == nil || cal.Pkg == nil {
+					continue
+				}
+				pk := cal.Pkg.Pkg.Path()
+				if pk != "strings" && pk != "bytes" {
+					continue
+				}
+				nScan++
+				switch cal.Name() {
+				case "Fields", "FieldsFunc":
+					r.Bad(rule, core.FuncName(fn), "lossy-split:"+cal.Name(), p.InstrPos(c), pk+"."+cal.Name()+" drops empty fields: a name with an empty token (\"a..b\", a trailing or leading separator) is tokenised like another name, and a name of separators only yields no token at all (the matcher indexes the first token)")
+				case "Trim", "TrimLeft", "TrimRight":
+					if len(c.Common().Args) == 2 {
+						if _, isConst := core.ConstString(c.Common().Args[1]); !isConst {
+							if _, isK := c.Common().Args[1].(*ssa.Const); !isK {
+								r.Bad(rule, core.FuncName(fn), "cutset-trim-with-variable-set:"+cal.Name(), p.InstrPos(c), pk+"."+cal.Name()+" removes any run of the *characters* of its second argument, which here is a variable ("+valDesc(c.Common().Args[1])+"): used to strip a prefix it also eats the first characters of what follows whenever they occur in the prefix")
+							}
+						}
+					}
+				}
+			}
+		}
+	}
+	r.OK(rule, what, "exact-tokenisation-and-prefix-stripping", "-", fmt.Sprintf("%d strings/bytes calls scanned: no Fields/FieldsFunc, no Trim* with a variable cutset", nScan))
 }
